@@ -185,6 +185,25 @@ Definition module_of_tokens (ws : list str) : str :=
   finish_snake (join [95] (map (map lower_ascii) (filter nonempty ws))).
 Definition module_name_tok (s : str) : str := module_of_tokens (tokens s).
 
+(* ---------- enum member names: the common tail of both namers ----------
+   keyword suffix (on the lower-cased name), start check, final shape check (None = raise ValueError) *)
+Definition is_member_char (c : N) : bool := is_upper c || is_digit c || is_us c.
+Definition starts_upper_or_us (s : str) : bool :=   (* re.match(r"^[A-Z_]", s.upper()) on an ASCII name *)
+  match s with c :: _ => is_upper (upper_ascii c) || is_us c | [] => false end.
+Definition member_shape (s : str) : bool :=         (* re.match(r"^[A-Z_][A-Z0-9_]*$", s.upper()) *)
+  is_ident (map upper_ascii s).
+Definition kw_suffix_upper (n1 : str) : str := if is_kw (map lower_ascii n1) then n1 ++ [95] else n1.
+Definition member_check (n3 : str) : option str := if nonempty n3 && member_shape n3 then Some n3 else None.
+Definition member_tail (pre : str) (n1 : str) : option str :=
+  let n2 := kw_suffix_upper n1 in
+  member_check (if starts_upper_or_us n2 then n2 else pre ++ n2).
+Definition member_tail_int (fb : N) (n1 : str) : option str :=
+  let n2 := kw_suffix_upper n1 in
+  member_check
+    (if starts_upper_or_us n2 then n2
+     else let n := filter is_member_char (map upper_ascii (s_enum_member_ ++ n2)) in
+          match n with [] => s_enum_member_unknown_ ++ dec fb | _ => n end).
+
 (* ================================================================= Unicode-aware functions *)
 Section Oracles.
   (* behaviour of CPython's Unicode database on NON-ASCII code points (never consulted below 128) *)
@@ -253,47 +272,35 @@ Section Oracles.
     py_lower (filter (fun c => word c && negb (is_us c)) s).
 
   (* ---------- enum member names (enum_generator.py) ---------- *)
-  Definition is_member_char (c : N) : bool := is_upper c || is_digit c || is_us c.
-  Definition starts_upper_or_us (s : str) : bool :=   (* re.match(r"^[A-Z_]", s.upper()) on an ASCII name *)
-    match s with c :: _ => is_upper (upper_ascii c) || is_us c | [] => false end.
-  Definition member_shape (s : str) : bool :=         (* re.match(r"^[A-Z_][A-Z0-9_]*$", s.upper()) *)
-    is_ident (map upper_ascii s).
-
-  (* None = the function raises ValueError *)
-  Definition enum_member_str (v : str) : option str :=
+  (* first part of _generate_member_name_for_string_enum: the name before the keyword / start checks *)
+  Definition enum_str_base (v : str) : str :=
     let base := map (fun c => if (c =? 45) || (c =? 32) then 95 else c) (py_upper v) in
     let san := filter is_member_char base in
-    let n1 :=
-      match san with
-      | [] =>
-          let alnum := filter is_alnum v in
-          match alnum with
-          | [] => s_member_empty
-          | _ => let n := s_member_ ++ map upper_ascii alnum in
-                 if starts_digit n then s_member_ ++ n else n
-          end
-      | _ => if starts_digit san then s_member_ ++ san else san
-      end in
-    let n2 := if is_kw (map lower_ascii n1) then n1 ++ [95] else n1 in
-    let n3 := if starts_upper_or_us n2 then n2 else s_member_ ++ n2 in
-    if nonempty n3 && member_shape n3 then Some n3 else None.
+    match san with
+    | [] =>
+        let alnum := filter is_alnum v in
+        match alnum with
+        | [] => s_member_empty
+        | _ => let n := s_member_ ++ map upper_ascii alnum in
+               if starts_digit n then s_member_ ++ n else n
+        end
+    | _ => if starts_digit san then s_member_ ++ san else san
+    end.
+
+  (* None = the function raises ValueError *)
+  Definition enum_member_str (v : str) : option str := member_tail s_member_ (enum_str_base v).
 
   (* value rendered as str(value); [fb] = |int_value_for_fallback|, [neg] = (int_value_for_fallback < 0) *)
-  Definition enum_member_int (v : str) (neg : bool) (fb : N) : option str :=
+  Definition enum_int_base (v : str) (neg : bool) (fb : N) : str :=
     let base := concat (map (fun c => if (c =? 45) || (c =? 32) then [95]
                                       else if c =? 46 then s_dot_ else [c]) (py_upper v)) in
     let san := filter is_member_char base in
-    let n1 :=
-      match san with
-      | [] => if neg then s_value_neg_ ++ dec fb else s_value_ ++ dec fb
-      | _ => if starts_upper_or_us san then san else s_value_ ++ san
-      end in
-    let n2 := if is_kw (map lower_ascii n1) then n1 ++ [95] else n1 in
-    let n3 :=
-      if starts_upper_or_us n2 then n2
-      else let n := filter is_member_char (map upper_ascii (s_enum_member_ ++ n2)) in
-           match n with [] => s_enum_member_unknown_ ++ dec fb | _ => n end in
-    if nonempty n3 && member_shape n3 then Some n3 else None.
+    match san with
+    | [] => if neg then s_value_neg_ ++ dec fb else s_value_ ++ dec fb
+    | _ => if starts_upper_or_us san then san else s_value_ ++ san
+    end.
+  Definition enum_member_int (v : str) (neg : bool) (fb : N) : option str :=
+    member_tail_int fb (enum_int_base v neg fb).
 End Oracles.
 
 (* ================================================================= guards (executable) *)
